@@ -709,8 +709,13 @@ func replayReproduced(o *Obligation, res string) bool {
 
 func runReplayTest(c *FnCtx, repo, scratch, testSrc string) string {
 	pkg := c.eng.ld.Pkg
+	// the replayed code may create files (file writers called with corpus strings as path): run it inside a
+	// temporary working directory, never in the package directory of /repo
+	testSrc = strings.Replace(testSrc, "func TestVerifReplay(t *testing.T) {\n", "func TestVerifReplay(t *testing.T) {\n\tverifSandbox(t)\n", 1)
 	testFile := filepath.Join(scratch, fmt.Sprintf("replay_%d_test.go", time.Now().UnixNano()))
 	os.WriteFile(testFile, []byte(testSrc), 0o644)
+	sandboxFile := filepath.Join(scratch, "sandbox_test.go")
+	os.WriteFile(sandboxFile, []byte("//go:build verif\n// +build verif\n\npackage "+pkg.Name()+"\n\nimport (\n\t\"os\"\n\t\"testing\"\n)\n\nfunc verifSandbox(t *testing.T) {\n\tdir := t.TempDir()\n\told, _ := os.Getwd()\n\tos.Chdir(dir)\n\tt.Cleanup(func() { os.Chdir(old) })\n}\n"), 0o644)
 	ghostFile := filepath.Join(scratch, "ghost_gen.go")
 	os.WriteFile(ghostFile, []byte("//go:build verif\n// +build verif\n\n"+c.eng.ld.GhostSrc), 0o644)
 	pkgDir := repo
@@ -719,6 +724,7 @@ func runReplayTest(c *FnCtx, repo, scratch, testSrc string) string {
 	}
 	ov := map[string]map[string]string{"Replace": {
 		filepath.Join(pkgDir, "zz_verif_replay_test.go"):     testFile,
+		filepath.Join(pkgDir, "zz_verif_sandbox_test.go"):    sandboxFile,
 		filepath.Join(pkgDir, "zz_verif_ghost_generated.go"): ghostFile,
 	}}
 	ovb, _ := json.Marshal(ov)
@@ -1158,7 +1164,7 @@ func scheduleCallBody(fn *ssa.Function, args []string) string {
 }
 
 var ghostIntrinsicNames = []string{"verifBuf", "verifRdPos", "verifRdData", "verifRdEOF", "verifWritten", "verifTokPos", "verifTokDepth", "verifFresh", "verifFreshVal",
-	"verifRangeCount", "verifRangeIndex", "verifHeight", "verifIsNaN", "verifIsInf", "verifVisited", "verifLent", "verifInfallibleWriter", "verifIsByteReader", "verifMapsSameExcept", "verifMapSameExceptKey", "verifMapSameExceptKeys", "verifOldHas", "verifOldGet", "verifOldLen", "verifLoopSame"}
+	"verifRangeCount", "verifRangeIndex", "verifHeight", "verifIsNaN", "verifIsInf", "verifVisited", "verifLent", "verifInfallibleWriter", "verifIsByteReader", "verifMapsSameExcept", "verifMapSameExceptKey", "verifMapSameExceptKeys", "verifOldHas", "verifOldGet", "verifOldLen", "verifLoopSame", "verifFile"}
 
 // usesGhostIntrinsic: the clause mentions a ghost function that has no executable body (cannot be evaluated in a replay).
 func usesGhostIntrinsic(expr string) bool {
